@@ -212,7 +212,15 @@ fn parse_nd_rtr_options(buf: &mut Buffer) -> Result<NDOptions, Error> {
                 use std::convert::{TryFrom as _, TryInto as _};
                 let scaled_lifetime_plc = u16::from_be_bytes(value[0..=1].try_into().unwrap());
                 let lifetime = Duration::from_secs((scaled_lifetime_plc & !7).into());
-                let prefixlen = (scaled_lifetime_plc & 0x07) * 8 + 32;
+                let prefixlen: u16 = match scaled_lifetime_plc & 0x07 {
+                    0 => 96,
+                    1 => 64,
+                    2 => 56,
+                    3 => 48,
+                    4 => 40,
+                    5 => 32,
+                    _ => return Err(Error::InvalidPacket),
+                };
                 let ip_octets =
                     <[u8; 16]>::try_from([&value[2..], &[0, 0, 0, 0]].concat()).unwrap();
                 let prefix = std::net::Ipv6Addr::from(ip_octets);
@@ -455,13 +463,28 @@ fn serialise_router_advertisement(a: &RtrAdvertisement) -> Vec<u8> {
                 v.serialise(&dnssl.v);
             }
             NDOptionValue::Pref64((lifetime, prefixlen, prefix)) => {
+                /* RFC8781 Section 4: the prefix length code, only these lengths exist. */
+                let plc: u16 = match prefixlen {
+                    96 => 0,
+                    64 => 1,
+                    56 => 2,
+                    48 => 3,
+                    40 => 4,
+                    32 => 5,
+                    _ => {
+                        log::warn!("Not advertising NAT64 prefix of length {}", prefixlen);
+                        continue;
+                    }
+                };
                 v.serialise(PREF64.0);
                 v.serialise(2_u8);
-                let scaled_lifetime = (lifetime.as_secs() / 8) as u16;
-                let plc = ((prefixlen - 32) / 8) as u16;
+                /* 13 bits, in units of 8 seconds */
+                let scaled_lifetime = std::cmp::min(lifetime.as_secs() / 8, 8191) as u16;
                 v.serialise((scaled_lifetime << 3) | plc);
-                for i in 0..12 {
-                    v.serialise(prefix.octets()[i])
+                let mask = u128::MAX << (128 - u32::from(*prefixlen));
+                let octets = (u128::from(*prefix) & mask).to_be_bytes();
+                for octet in octets.iter().take(12) {
+                    v.serialise(*octet)
                 }
             }
             NDOptionValue::CaptivePortal(url) => {
